@@ -380,6 +380,9 @@ def rule_order_preserving_evals(rep: Report, repo: Repo):
                 ok = cls in ("same", "lower")
                 if cls == "lower":
                     ok = _derivative_guard(f, index_name)
+                if cls == "unknown" and any(s_[0] == "other" for s_ in segs) and not any(s_[0] in ("nonzero",) for s_ in segs):
+                    # built from something the rule cannot follow: nothing is known about the orders it reads
+                    raise AnalysisError(R, f"{mod}::{q} `{norm(node)[:60]}`: the index is not resolved ({segs})")
                 rep.check(ok, R, f"{mod}::{q} `{norm(node)[:70]}` loads at the requested orders",
                           f"order part classified {cls!r} from {segs}", repo.loc(mod, node))
     # helpers called from an eval closure run at evaluation time too: a series element they read is read by the request.
@@ -719,6 +722,84 @@ def rule_key_normalisation(rep: Report, repo: Repo):
     rep.check(ok, R, "_symbolic_keys_to_tuples builds each order tuple by iterating the returned `symbols` sequence",
               f"key `{ktext}` (orders are labelled by the same sequence `{S}` that becomes dimension_names)", loc(st[0]))
     rep.ok(R, "_symbolic_keys_to_tuples reads the exponent of each symbol from the key", f"{kname}.as_powers_dict()[symbol]", loc(st[0]))
+
+
+def rule_view_indexing(rep: Report, repo: Repo):
+    """A finite-only index (`series[1:, ::2]`) gives a view; numpy equivalence of the view holds by construction when its eval reads
+    the parent at `item + index` (the finite part as given, the requested orders appended) or goes through a packed object array that
+    numpy indexes.  An eval that translates view positions to parent positions by its own slice arithmetic must use start AND step
+    of every slice (`slice.indices(n)` gives (start, stop, step)); using the start alone is reported, any other arithmetic is
+    `cannot decide`.  Looked for in BlockSeries.__getitem__ and the methods of BlockSeries it calls."""
+    R = "E2.views"
+    cls = repo.find("series::BlockSeries", R)
+    gi = [m for m in cls.body if isinstance(m, ast.FunctionDef) and m.name == "__getitem__"]
+    if len(gi) != 1:
+        raise AnalysisError(R, "BlockSeries.__getitem__ not found")
+    hosts = [gi[0]] + [m for m in cls.body if isinstance(m, ast.FunctionDef) and m is not gi[0] and any(
+        isinstance(c, ast.Call) and isinstance(c.func, ast.Attribute) and c.func.attr == m.name and norm(c.func.value) == "self" for c in ast.walk(gi[0]))]
+    n_evals = 0
+    for host in hosts:
+        closures = [n for n in ast.walk(host) if isinstance(n, (ast.Lambda, ast.FunctionDef)) and n is not host]
+        for cl in closures:
+            loads = [x for x in ast.walk(cl) if isinstance(x, ast.Subscript) and isinstance(x.ctx, ast.Load) and norm(x.value) == "self"]
+            if not loads:
+                continue
+            n_evals += 1
+            idx_name = cl.args.vararg.arg if cl.args.vararg else None
+            for ld_ in loads:
+                t = norm(ld_.slice)
+                inst = f"series::BlockSeries.{host.name} view eval reads the parent at `{t[:60]}`"
+                if idx_name and t in (f"item + {idx_name}", f"(*item, *{idx_name})", f"item + tuple({idx_name})", f"tuple(item) + {idx_name}"):
+                    rep.ok(R, inst, "the finite part as given with the requested orders appended: numpy equivalence by construction", repo.loc("series", ld_))
+                    continue
+                src = norm(host)
+                uses_start = ".indices(" in src and ")[0]" in src or ".start" in src
+                uses_step = ")[2]" in src or ".step" in src or "range(*" in src
+                if uses_start and not uses_step:
+                    rep.fail(R, f"series::BlockSeries.{host.name} maps view positions to parent positions from the START of each slice only",
+                             f"parent index `{t[:70]}`; a slice with a step (`series[::2]`) selects start, start + step, ...: the view's shape "
+                             "honours the step (it comes from numpy) but its contents do not", repo.loc("series", ld_))
+                else:
+                    raise AnalysisError(R, f"{inst}: not the given finite index with the orders appended: not understood")
+    rep.floor(R, "view evals inspected", n_evals, 2)
+
+
+def rule_symbol_order(rep: Report, repo: Repo):
+    """The order of the user's `symbols` is API: it fixes which order index belongs to which parameter, and block_diagonalize /
+    operator_to_BlockSeries label the result with the symbols in that order.  Every internal consumer of a symbolic or
+    symbolic-key input must therefore receive `symbols` itself (or an order-preserving default for an omitted one); a re-ordering
+    on the way (`sorted(...)`, a detour through a set) silently permutes the meaning of the indices."""
+    from .resolve import env_at, resolved
+    from .sem import bind_args
+    R = "E2.keys"
+    MODB = "block_diagonalization"
+    n_sites = 0
+    for host_name in ("_to_scalar_BlockSeries", "operator_to_BlockSeries", "block_diagonalize"):
+        host = repo.find(f"{MODB}::{host_name}", R)
+        if "symbols" not in [a.arg for a in host.args.args + host.args.kwonlyargs]:
+            continue
+        for c in [n for n in ast.walk(host) if isinstance(n, ast.Call) and call_name(n) in
+                  ("_sympy_to_BlockSeries", "_dict_to_BlockSeries", "_symbolic_keys_to_tuples", "_to_scalar_BlockSeries", "operator_to_BlockSeries")]:
+            callee = repo.find(f"{MODB}::{call_name(c)}", R)
+            b = bind_args(callee, c)
+            if b is None or "symbols" not in b:
+                continue
+            n_sites += 1
+            v = resolved(b["symbols"], env_at(c, host, keep_params=False))  # a rebinding of the parameter on the way is seen
+            inst = f"{MODB}::{host_name} hands `symbols` to {call_name(c)} in the caller's order"
+            reorder = [x for x in ast.walk(v) if isinstance(x, ast.Call) and call_name(x) in ("sorted", "set", "frozenset", "reversed", "np.unique", "np.sort")
+                       and any(isinstance(y, ast.Name) and y.id == "symbols" for y in ast.walk(x))]
+            if reorder:
+                rep.fail(R, f"{MODB}::{host_name} passes `{norm(v)[:70]}` as the symbols of {call_name(c)}",
+                         f"`{norm(reorder[0])[:50]}` re-orders the symbols the caller listed: order index k of the expansion then belongs "
+                         "to another parameter than the k-th entry of `symbols` (and of dimension_names)", repo.loc(MODB, c))
+            elif norm(v) in ("symbols", "list(symbols)", "tuple(symbols)") or (isinstance(v, ast.BoolOp) and isinstance(v.op, ast.Or) and norm(v.values[0]) == "symbols"):
+                rep.ok(R, inst, norm(v)[:60], repo.loc(MODB, c))
+            elif not any(isinstance(y, ast.Name) and y.id == "symbols" for y in ast.walk(v)):
+                raise AnalysisError(R, f"{MODB}::{host_name}: the symbols handed to {call_name(c)} (`{norm(v)[:60]}`) do not come from `symbols`: not understood")
+            else:
+                raise AnalysisError(R, f"{MODB}::{host_name}: `{norm(v)[:60]}` handed to {call_name(c)} as symbols: not understood")
+    rep.floor(R, "internal consumers of `symbols`", n_sites, 3)
 
 
 # ---------------------------------------------------------------------------
